@@ -108,7 +108,9 @@ def gen_sentence(rnd, style):
         # one edit
         i = rnd.randrange(len(s) + 1)
         op = rnd.random()
-        ch = rnd.choice(ALPHABET + "23456789bcdeE ,;x")
+        # (non-ASCII decimal digits are digits for str.isdigit() / int() / an un-flagged \d,
+        # but not for the documented grammar)
+        ch = rnd.choice(ALPHABET + "23456789bcdeE ,;x" + "\u0663\uff13\u0969")
         if op < 0.33:
             s = s[:i] + ch + s[i:]
         elif op < 0.66 and i < len(s):
